@@ -7,6 +7,11 @@ Require Import GM.model.Base GM.model.Util GM.model.UtilI GM.model.Reader GM.mod
                GM.model.Html GM.model.HtmlSpec GM.model.BlockParse GM.model.InlineParse GM.model.ParseI.
 Require Import GM.gen.Tables GM.gen.Regexes.
 Require Import GM.proofs.MiscProofs GM.proofs.ReaderProofs GM.proofs.BReaderProofs GM.proofs.BlockRangeProofs GM.proofs.ParseInv.
+(* helper libraries, in compile order: ParseInlineTotalHeap, ParseInlineTotalDelim, ParseInlineTotalEmph,
+   ParseInlineTotalLabel, ParseInlineTotalCtx, ParseInlineTotalTree, ParseInlineTotalReader, ParseInlineTotalReader2,
+   ParseInlineTotalParsers, ParseInlineTotalLink, ParseInlineTotalDrive *)
+Require Import GM.proofs.ParseInlineTotalReader2 GM.proofs.ParseInlineTotalParsers GM.proofs.ParseInlineTotalLink
+               GM.proofs.ParseInlineTotalDrive.
 From Coq Require Import ZArith Lia.
 Open Scope Z_scope.
 
@@ -19,12 +24,28 @@ Variable punct_rune space_rune : N -> bool.
 Notation IC := (inline_children space_table punct_table norm url_table email_table
                   re_email_domain re_open_tag re_close_tag punct_rune space_rune).
 
+(* The two regular expressions of raw_html.go must not match the empty string: the raw HTML parser
+   returns a node whenever they match, and a node over zero bytes would make parseBlock retry at the
+   same position for ever.  Without these hypotheses the statement is false: with
+   re_open_tag := RCap 0 REmpty, src = "<a" ([60;97]), lines = [mkseg 0 2] and the regenerated tables
+   the model returns OutOfFuel (checked with vm_compute).  Both hold by computation for the
+   regenerated regular expressions (see the corollary). *)
+Hypothesis Hopen : re_nonempty re_open_tag = true.
+Hypothesis Hclose : re_nonempty re_close_tag = true.
+
 Theorem inline_children_total : forall refs src lines,
   bytes_ok src -> lines_ok src lines -> exists ts, IC refs src lines = Ok ts.
-Proof. Admitted.
+Proof.
+  apply inline_children_total_of_link; [exact Hopen|exact Hclose|].
+  intros refs src segs first Hfirst s dl ll Iv Hin.
+  exact (link_parse_spec src segs first Hfirst space_table punct_table norm refs s dl ll Iv Hin).
+Qed.
 
 End S.
 
 Corollary InlineChildren_total : forall refs src lines,
   bytes_ok src -> lines_ok src lines -> exists ts, InlineChildren refs src lines = Ok ts.
-Proof. Admitted.
+Proof.
+  intros refs src lines Hsrc Hlines. unfold InlineChildren.
+  apply inline_children_total; [vm_compute; reflexivity|vm_compute; reflexivity|exact Hsrc|exact Hlines].
+Qed.
